@@ -293,6 +293,10 @@ class Engine:
             r = self.term(e['recv'], cx, known)
             if e['name'] == 'len':
                 return ('len', r)
+            if e['name'] == 'next' and r[0] == 'nbrs':
+                return ('first_nbr_opt', r[1])
+            if e['name'] in ('unwrap', 'expect') and r[0] == 'first_nbr_opt':
+                return ('first_nbr', r[1])
             if e['name'] in ('iter', 'into_iter', 'copied', 'cloned', 'by_ref', 'collect', 'to_vec'):
                 return r
             return ('m', e['name'], freeze(r), tuple(freeze(a) for a in args))
@@ -579,26 +583,39 @@ class Engine:
         surv = self.survive_seq(hir.stmts_of(body), sub, kn, s['id'])
         return ('lit', True, ('forall', freeze(it), freeze(surv)))
 
-    def survive_seq(self, stmts, cx, known, loop_id):
-        """condition under which one iteration neither rejects (return false) nor leaves the candidate
-        (break/continue to an outer loop counts as leaving: handled by the caller through labels)"""
+    def survive_seq(self, stmts, cx, known, loop_id, target=None):
+        """condition under which one iteration of loop `loop_id` neither rejects (return false) nor leaves
+        to an outer loop.  With `target` (a predicate on statements): the condition under which control
+        reaches a statement satisfying it ("facts at a program point")."""
         if not stmts:
-            return T
+            return T if target is None else F_
         s = hir.strip(stmts[0]) if stmts[0].get('k') not in ('Let',) else stmts[0]
         rest = stmts[1:]
         k = s['k']
+        if target is not None and target(s):
+            return T
+        if target is not None and k not in ('If', 'Match', 'Block', 'For', 'While', 'Loop', 'Let') and any(target(n) for n in hir.nodes(s, into_closures=False)):
+            return T
         if k == 'Ret':
+            if target is not None:
+                return F_
             return self.boolexpr(s['e'], cx, known) if s.get('e') else T
         if k == 'Continue':
-            return T if s.get('target') == loop_id else ('lit', True, ('leaves', s.get('label') or '?'))
+            if target is not None:
+                return F_
+            return T if s.get('target') == loop_id else F_
         if k == 'Break':
-            return T if s.get('target') == loop_id else ('lit', True, ('leaves', s.get('label') or '?'))
+            if target is not None:
+                return F_
+            return T if s.get('target') == loop_id else F_
         if k == 'If':
             c = self.boolexpr(s['cond'], cx, known)
             tb = hir.stmts_of(s['then'])
             eb = hir.stmts_of(s['else']) if s.get('else') else []
-            t = self.survive_seq(tb + ([] if _ends_exit(s['then']) else rest), cx, known | must(c), loop_id)
-            e = self.survive_seq(eb + ([] if (s.get('else') and _ends_exit(s['else'])) else rest), cx, known | must(NOT(c)), loop_id)
+            t = self.survive_seq(tb + ([] if _ends_exit(s['then']) else rest), cx, known | must(c), loop_id, target)
+            e = self.survive_seq(eb + ([] if (s.get('else') and _ends_exit(s['else'])) else rest), cx, known | must(NOT(c)), loop_id, target)
+            if t == e:
+                return t
             return OR(AND(c, t), AND(NOT(c), e))
         if k == 'Match' and _has_exit(s):
             sc = self.term(s['scrut'], cx, known)
@@ -608,24 +625,49 @@ class Engine:
                 c = self.bind_pat(a['pat'], sc, cx)
                 if a.get('guard'):
                     c = AND(c, self.boolexpr(a['guard'], cx, known | must(c)))
-                b = self.survive_seq(hir.stmts_of(a['body']) + ([] if _ends_exit(a['body']) else rest), cx, known | must(c), loop_id)
+                b = self.survive_seq(hir.stmts_of(a['body']) + ([] if _ends_exit(a['body']) else rest), cx, known | must(c), loop_id, target)
                 alts.append(AND(*[NOT(p) for p in prev], c, b))
                 prev.append(c)
             return OR(*alts)
         if k == 'For':
+            if target is not None and any(target(n) for n in hir.nodes(s['body'], into_closures=False)):
+                # the point lies inside this loop: facts = facts before it + reaching the point within one iteration
+                sub = cx.sub()
+                it = self.term(s['iter'], cx, known)
+                if it[0] == 'gl' and it[1] in ('vertices', 'vertex_vec') and s['pat'].get('k') == 'Bind':
+                    # a sweep over the vertices of the graph: the element is an existing vertex, named after the loop variable
+                    self.bind_pat(s['pat'], ('var', s['pat']['name']), sub)
+                    known = known | {(True, ('exists', ('var', s['pat']['name'])))}
+                else:
+                    self.bind_pat(s['pat'], ('elem', freeze(it)) if it[0] not in ('inc', 'nbrs') else (('tuple', [W, ET]) if it[0] == 'inc' else W), sub)
+                return self.survive_seq(hir.stmts_of(s['body']), sub, known, s['id'], target)
             f = self.for_fact(s, cx, known)
-            return AND(f, self.survive_seq(rest, cx, known | must(f), loop_id))
+            return AND(f, self.survive_seq(rest, cx, known | must(f), loop_id, target))
         if k == 'Let' and s.get('init') is not None:
             ie = hir.strip(s['init'])
             if ie.get('ty') == 'bool' and s['pat'].get('k') == 'Bind' and 'Mut' not in s['pat'].get('mode', '') and ie['k'] in ('Binary', 'Unary', 'MethodCall', 'Call'):
                 cx.env[s['pat']['id']] = ('formula', self.boolexpr(ie, cx, known))
             else:
-                self.bind_pat(s['pat'], self.term(s['init'], cx, known), cx)
-            return self.survive_seq(rest, cx, known, loop_id)
+                c = self.bind_pat(s['pat'], self.term(s['init'], cx, known), cx)
+                if s.get('els'):
+                    return AND(c, self.survive_seq(rest, cx, known | must(c), loop_id, target))
+            return self.survive_seq(rest, cx, known, loop_id, target)
         if k == 'Block':
-            return self.survive_seq(hir.stmts_of(s) + rest, cx, known, loop_id)
+            return self.survive_seq(hir.stmts_of(s) + rest, cx, known, loop_id, target)
+        if k in ('If',) and False:
+            pass
         self.walk_terms(s, cx, known)
-        return self.survive_seq(rest, cx, known, loop_id)
+        return self.survive_seq(rest, cx, known, loop_id, target)
+
+    def facts_at(self, key, target, vertex_params=()):
+        """DNF of the condition under which control reaches a statement satisfying `target` in function `key`"""
+        fn = self.fns[key]
+        cx = Ctx(self, key, {}, set(vertex_params))
+        f = self.survive_seq(hir.stmts_of(fn['hir']), cx, set(), None, target)
+        try:
+            return dnf(f), cx
+        except Blowup:
+            return None, cx
 
     def walk_terms(self, e, cx, known):
         """evaluate accessor calls inside a statement for the existence typestate"""
